@@ -402,10 +402,17 @@ impl Mempool {
         }
 
         self.routing_work_in_mempool = 0;
+        // input reservations follow the pooled transactions: whatever has left the pool (deleted above, or
+        // dropped by the caller because it no longer validates) must release its inputs, otherwise those
+        // outputs can never be spent through this mempool again
+        self.utxo_map.clear();
 
-        // add routing work from remaining tx
+        // add routing work and input reservations from remaining tx
         for (_, transaction) in &self.transactions {
             self.routing_work_in_mempool += transaction.total_work_for_me;
+            for input in transaction.from.iter() {
+                self.utxo_map.insert(input.utxoset_key, 1);
+            }
         }
     }
 
